@@ -191,7 +191,7 @@ Proof. exact mask_is_dilation. Qed.
 
 (* rfbMakeRichCursorFromXCursor, size and SELECTION only: cw*ch pixels, pixel (i,j) is the foreground word
    where the source bitmap has a 1, the background word elsewhere.  The two words are the mirror of the C
-   expression (rgb_word: `(uint32_t)comp << shift`); what colour they are is the next two theorems. *)
+   expression (rgb_word); what colour they are is the next theorems. *)
 Theorem C15_rich_from_x_selection_mirrored : forall fmt c r, 0 <= cw c -> 0 <= ch c ->
   make_rich_from_x fmt c = Some r ->
   Z.of_nat (length r) = ch c * cw c /\
@@ -202,17 +202,25 @@ Theorem C15_rich_from_x_selection_mirrored : forall fmt c r, 0 <= cw c -> 0 <= c
 Proof. exact rich_from_x_spec. Qed.
 
 (* colour of an X-style cursor, independent statement (CursorColour.v): a 16-bit component comp means
-   the channel value max*comp/65535 - (p >> shift) & max of the pixel.
-   F15e: REFUTED for the library as it is - the component is shifted unscaled.  32 bpp 8/8/8, foreground
-   (32768,0,0) = half red gives the pixel 0x8000: red channel 0, green channel 128. *)
-Theorem C15_rich_from_x_colour_refuted :
-  exists r, make_rich_from_x fmt32 col_cur = Some r /\ r = [32768] /\
-            red_of fmt32 32768 = 0 /\ green_of fmt32 32768 = 128 /\ chan 255 32768 = 127 /\
-            ~ rich_from_x_ok fmt32 col_cur r.
-Proof. exact rich_from_x_colour_refuted. Qed.
+   the channel value max*comp/65535 - (p >> shift) & max of the pixel.  Every true-colour format with
+   separate channels inside a pixel of at most 4 bytes, every cursor. *)
+Theorem C15_rich_from_x_colour : forall fmt kr kg kb c r,
+  fmt_ok fmt kr kg kb -> bpp fmt <= 4 -> kr <= 16 -> kg <= 16 -> kb <= 16 -> 0 <= cw c -> 0 <= ch c ->
+  (let '(r, g, b) := cfore c in 0 <= r <= 65535 /\ 0 <= g <= 65535 /\ 0 <= b <= 65535) ->
+  (let '(r, g, b) := cback c in 0 <= r <= 65535 /\ 0 <= g <= 65535 /\ 0 <= b <= 65535) ->
+  make_rich_from_x fmt c = Some r -> rich_from_x_ok fmt c r.
+Proof. exact rich_from_x_colour. Qed.
+
+(* record of F15e: before the fix the component was shifted unscaled.  32 bpp 8/8/8, foreground
+   (32768,0,0) = half red gave the pixel 0x8000: red channel 0, green channel 128. *)
+Theorem C15_rich_from_x_colour_old_refuted :
+  pixmod fmt32 (rgb_word_unscaled fmt32 (cfore col_cur)) = 32768 /\
+  red_of fmt32 32768 = 0 /\ green_of fmt32 32768 = 128 /\ chan 255 32768 = 127 /\
+  ~ colour_ok fmt32 (cfore col_cur) (pixmod fmt32 (rgb_word_unscaled fmt32 (cfore col_cur))).
+Proof. exact rich_from_x_colour_old_refuted. Qed.
 
 (* ... and the word that is right for every true-colour format with separate channels inside the pixel
-   (what notes/fix_C15_5.diff makes the library compute) *)
+   (what the library computes since the fix of F15e) *)
 Theorem C15_rgb_word_scaled_ok : forall fmt kr kg kb c3,
   fmt_ok fmt kr kg kb ->
   (let '(r, g, b) := c3 in 0 <= r <= 65535 /\ 0 <= g <= 65535 /\ 0 <= b <= 65535) ->
